@@ -189,6 +189,12 @@ class OutgoingBallsHandler(BallDeviceStateHandler):
             self.debug_log("We do not have an eject but an available ball.")
             return True
 
+        if not self._current_target and not self._eject_queue.empty():
+            # the lost ball has already been claimed by an eject which did not start yet (e.g. because we are
+            # still waiting for a ball which may have skipped this device). that eject still needs a ball.
+            self.debug_log("We do not have a running eject but a queued eject which waits for the ball.")
+            return True
+
         if self._current_target:
             if self._current_target.is_playfield():
                 self.debug_log("End of path is playfield %s", self._current_target)
